@@ -1056,7 +1056,12 @@ where
         // Partial transfer of the delivery
         match &mut self.incomplete_transfer {
             Some(incomplete) => {
-                incomplete.or_assign(transfer)?;
+                if let Err(err) = incomplete.or_assign(transfer) {
+                    // A contradictory continuation frame ends the delivery: keeping the
+                    // buffer would splice the frames that follow onto it
+                    self.incomplete_transfer = None;
+                    return Err(err.into());
+                }
                 incomplete.append(payload);
 
                 if let Some(delivery_tag) = incomplete.performative.delivery_tag.clone() {
